@@ -1,6 +1,6 @@
 //! @property C13
 //! @enc BytesSerializable::{to_bytes, from_bytes} of Identifier, PollingStrategy, Partitioning, PollMessages, StoreConsumerOffset, GetConsumerOffset, CreateStream, DeleteStream, CreateConsumerGroup, JoinConsumerGroup, CreatePartitions; PollingKind/ConsumerKind/IdKind/PartitioningKind code maps
-//! @bounds every scalar field symbolic (u32/u64/bool, all enum arms); identifiers numeric (any u32 >= 1) or a 2-byte name with symbolic bytes; optional fields present/absent; names of length 1..3 with symbolic bytes (ASCII letters); partition ids >= 1 when present (0 is the wire encoding of "absent")
+//! @bounds every scalar field symbolic (u32/u64/bool, all enum arms); identifiers numeric (any u32 >= 1) or a 2-byte name with symbolic bytes; optional fields present/absent; names of length 2 with symbolic bytes (ASCII letters); partition ids >= 1 when present (0 is the wire encoding of "absent")
 //! @out HTTP/JSON; SendMessages with user headers (hash-map iteration order); responses (mapper.rs) - not yet encoded; malformed frames only for Identifier/PollingStrategy/Partitioning (decoder must return Err or a value that re-encodes to the same bytes)
 use super::util::static_bytes;
 use bytes::Bytes;
@@ -31,11 +31,11 @@ fn any_identifier() -> Identifier {
 }
 
 fn any_name() -> String {
-    let n: usize = kani::any();
-    kani::assume(n >= 1 && n <= 3);
-    let c: [u8; 3] = kani::any();
-    kani::assume(c[0] >= b'a' && c[0] <= b'z' && c[1] >= b'a' && c[1] <= b'z' && c[2] >= b'a' && c[2] <= b'z');
-    String::from_utf8(c[..n].to_vec()).unwrap()
+    // concrete length (symbolic lengths make every later copy a symbolic-size allocation: > 40 GB)
+    let a: u8 = kani::any();
+    let b: u8 = kani::any();
+    kani::assume(a >= b'a' && a <= b'z' && b >= b'a' && b <= b'z');
+    unsafe { String::from_utf8_unchecked(vec![a, b]) }
 }
 
 fn any_consumer() -> Consumer {
